@@ -387,11 +387,29 @@ pub fn write_bam_raw(d: &AlnDoc, sink: &mut dyn Write) -> io::Result<()> {
     Ok(())
 }
 
+/// A record the BAM encoder must reject after it has encoded part of it: the given record with one
+/// quality score too few (`None` when the record has fewer than two bases or no scores). Written —
+/// and its error ignored — in front of every third record by the sync and async BAM halves alike: a
+/// rejected record must leave no trace in what the writer emits afterwards.
+pub fn rejected_variant(i: usize, r: &sam::alignment::RecordBuf) -> Option<sam::alignment::RecordBuf> {
+    if i % 3 != 1 || r.sequence().len() < 2 || r.quality_scores().as_ref().len() != r.sequence().len() {
+        return None;
+    }
+    let mut bad = r.clone();
+    let mut q = bad.quality_scores().as_ref().to_vec();
+    q.pop();
+    *bad.quality_scores_mut() = q.into();
+    Some(bad)
+}
+
 pub fn write_bam(d: &AlnDoc, sink: &mut dyn Write) -> io::Result<()> {
     let (header, recs) = parse_sam(&d.sam_text("unsorted"))?;
     let mut w = bam::io::Writer::new(sink);
     w.write_header(&header)?;
     for (i, r) in recs.iter().enumerate() {
+        if let Some(bad) = rejected_variant(i, r) {
+            let _ = w.write_alignment_record(&header, &bad);
+        }
         w.write_alignment_record(&header, r)?;
         if d.flush_every > 0 && (i + 1) % d.flush_every as usize == 0 {
             w.get_mut().flush()?;
